@@ -230,19 +230,6 @@ macro_rules! max {
     }};
 }
 
-/// Const evaluation of `min` for integers.
-macro_rules! min {
-    ($x:expr, $y:expr) => {{
-        let x = $x;
-        let y = $y;
-        if x <= y {
-            x
-        } else {
-            y
-        }
-    }};
-}
-
 /// Enumeration for how to round floats with precision control.
 ///
 /// For example, using [`Round`][RoundMode::Round], `1.2345` rounded
@@ -1296,9 +1283,10 @@ impl Options {
             if cfg!(feature = "power-of-two") && exp < 13 {
                 // 11 for the exponent digits in binary, 1 for the sign, 1 for the symbol
                 count += 13;
-            } else if exp < 5 {
-                // 3 for the exponent digits in decimal, 1 for the sign, 1 for the symbol
-                count += 5;
+            } else if exp < 12 {
+                // 1 for the symbol, 1 for the sign, and 10 for the exponent digits: the
+                // decimal exponent writer always claims a 10-byte window for its digits.
+                count += 12;
             } else {
                 // More leading or trailing zeros than the exponent digits.
                 count += exp;
@@ -1329,11 +1317,9 @@ impl Options {
             //      assume it's a lot higher, and go with 64.
             64
         };
-        let digits = if let Some(max_digits) = self.max_significant_digits() {
-            min!(formatted_digits, max_digits.get())
-        } else {
-            formatted_digits
-        };
+        // NOTE: `max_significant_digits` cannot shrink this: every generated digit is
+        // written to the buffer first and only truncated afterwards.
+        let digits = formatted_digits;
         let digits = if let Some(min_digits) = self.min_significant_digits() {
             max!(digits, min_digits.get())
         } else {
